@@ -114,6 +114,9 @@ class Session:
             ops.append(['send', 'A', 'uB', 'call', 'cannot-send'])
             ops.append(['send', 'A', 'uB', 'signal', 'cannot-receive'])
             ops.append(['send', 'A', 'uB', 'error', 'ok'])
+            # NO_AUTO_START: the bus takes its other "no such name" path (no activation attempt)
+            ops.append(['send', 'A', 'unowned', 'call', 'noautostart'])
+            ops.append(['send', 'A', 'unowned', 'signal', 'noautostart'])
             ops.append(['bcast', 'A', 'ok'])
             ops.append(['bcast', 'A', 'cannot-send'])
         if 'B' in live:
@@ -143,12 +146,13 @@ class Session:
         s = run.bus.next_serial(c)
         tok = b'T%d' % self.tok
         dest = {'uB': run.uname.get('B') or b':1.9999', 'N': NAME, 'unowned': b'com.example.Unowned', 'bus': R.BUS}[target]
-        iface = {'ok': 't.i', 'cannot-send': 'com.example.CannotSend', 'cannot-receive': 'com.example.CannotReceive'}[variant]
+        iface = {'ok': 't.i', 'noautostart': 't.i', 'cannot-send': 'com.example.CannotSend', 'cannot-receive': 'com.example.CannotReceive'}[variant]
         body = [R.S(tok)]
+        fl = 2 if variant == 'noautostart' else 0
         if kind == 'call':
-            return R.method_call(s, dest, '/t/x', iface, 'Do', body)
+            return R.method_call(s, dest, '/t/x', iface, 'Do', body, flags=fl)
         if kind == 'signal':
-            return R.signal(s, '/t/x', iface, 'Sig', body, dest=dest)
+            return R.signal(s, '/t/x', iface, 'Sig', body, dest=dest, flags=fl)
         return R.error(s, 777, 't.Err', dest, body)
 
     def observations(self, run, skip=()):
@@ -450,7 +454,7 @@ def run(ctx):
     ctx.coverage.update({
         'states': st['states'], 'transitions': st['transitions'], 'traces_validated_against_impl': 2 * st['transitions'],
         'completed_depth': st['completed_depth'], 'fixpoint': st['fixpoint'], 'policy_variants': extra,
-        'bound': '2 ordinary peers + late joiner + monitor candidate; 11 sends (4 targets x call/signal, denied-by-send, denied-by-receive, unicast error), 2 broadcasts, RequestName flags {0,3}, ReleaseName, disconnects, connect+Hello; '
+        'bound': '2 ordinary peers + late joiner + monitor candidate; 13 sends (4 targets x call/signal, unowned target with NO_AUTO_START, denied-by-send, denied-by-receive, unicast error), 2 broadcasts, RequestName flags {0,3}, ReleaseName, disconnects, connect+Hello; '
                  'monitor candidate may first own the name / add a rule / have a call outstanding; BecomeMonitor with 4 filters; monitor sends; BFS depth %d, every history on two buses' % depth,
     })
     ctx.assumptions = ['run B (disconnect instead of BecomeMonitor) is the reference for what others should see', 'pyv/models/matchrules.py decides filter matches']
